@@ -86,6 +86,8 @@ type vsSched struct {
 	obs []string
 	// goroutines the wrapper started (the instrumented copy calls vsSpawn in front of `go`)
 	spawned int
+	// goroutines of earlier histories that may still be running out: they pass every gate
+	retired map[int64]bool
 }
 
 var vsS = &vsSched{}
@@ -102,6 +104,9 @@ func (s *vsSched) tidOf(g int64, register bool) int {
 	defer s.mu.Unlock()
 	if t, ok := s.goids[g]; ok {
 		return t
+	}
+	if s.retired[g] {
+		return -1
 	}
 	if register {
 		// an unknown goroutine inside the wrapper: the watcher
@@ -135,8 +140,14 @@ func vsYield(site string) {
 		return
 	}
 	t := s.tidOf(vsGoid(), true)
-	s.reports <- vsReport{tid: t, kind: "park", site: site}
-	<-s.resume[t]
+	if t < 0 {
+		return
+	}
+	s.mu.Lock()
+	reports, resume := s.reports, s.resume[t]
+	s.mu.Unlock()
+	reports <- vsReport{tid: t, kind: "park", site: site}
+	<-resume
 }
 
 // vsSpawn is called by the instrumented copy in front of a go statement.
@@ -177,8 +188,9 @@ func (l *vsLocker) Unlock() {
 	on := s.on
 	s.mu.Unlock()
 	if on {
-		t := s.tidOf(vsGoid(), true)
-		s.reports <- vsReport{tid: t, kind: "inwait"}
+		if t := s.tidOf(vsGoid(), true); t >= 0 {
+			s.reports <- vsReport{tid: t, kind: "inwait"}
+		}
 	}
 }
 
@@ -598,6 +610,12 @@ func (r *vsRun) runHistory(head []string, rows [][]string) []string {
 	s := vsS
 	s.mu.Lock()
 	s.on = true
+	if s.retired == nil {
+		s.retired = map[int64]bool{}
+	}
+	for g := range s.goids {
+		s.retired[g] = true
+	}
 	s.goids = map[int64]int{}
 	s.obs = nil
 	s.spawned = 0
@@ -812,6 +830,12 @@ func (r *vsRun) runFree(head []string, rng *vsRng) []string {
 	s := vsS
 	s.mu.Lock()
 	s.on = false
+	if s.retired == nil {
+		s.retired = map[int64]bool{}
+	}
+	for g := range s.goids {
+		s.retired[g] = true
+	}
 	s.goids = map[int64]int{}
 	s.obs = nil
 	s.mu.Unlock()
